@@ -31,6 +31,9 @@ def run_shard(pid, tier, seed, shard, nshards, outpath) -> int:
         ctx.cov.start()
         try:
             mod.run(ctx)
+            from vfw import client  # noqa: PLC0415
+
+            client.drain_alias(ctx, pid)  # earlier results that a later call changed (every check that uses the boundary client)
         finally:
             ctx.cov.stop()
     except core.Inconclusive as e:
